@@ -106,10 +106,258 @@ fn gen_heavy(r: &mut Rng, big: bool) -> Case {
     }
 }
 
+/// Huge-weight family: i64 vertex weights whose part sums sit at / around the f64 mantissa
+/// boundary 2^53 and above (up to 2^62), where `to_f64` of a part weight, of the total or of a
+/// target part weight is no longer exact.  One or two huge "anchor" vertices pin each part's sum
+/// at base + d (d a few units, or a few half-ulps +- a few units above 2^54), a handful of small
+/// movable vertices (weight 1..5) hang on the anchors / on each other across the cut, so that
+/// their moves have positive gains and their target part weights land just below, at, and just
+/// above the cap.  Caps: the heaviest part (`max_imbalance: None`), `Some(0.0)` and tiny
+/// imbalances j * 2^-52 (cap = rounded half total + about j half-ulps), and imbalances 0.1..1
+/// with the total solved so that (1 + mi) * half is near the base.  Every sum stays < 2^63
+/// (contract: the sums do not overflow); a cap that `W::from_f64` cannot represent is tagged by
+/// the usual known-finding class.
+fn gen_huge(r: &mut Rng) -> Case {
+    if r.chance(1, 16) {
+        return gen_huge_pinned(r);
+    }
+    #[allow(non_snake_case)]
+    fn P2(k: u32) -> i128 {
+        1i128 << k
+    }
+    // base of the part sums and the f64 spacing just above it
+    let (base, k): (i128, u32) = match r.below(20) {
+        0..=9 => (P2(53), 53),
+        10 | 11 => (P2(54), 54),
+        12 => (P2(55), 55),
+        13 => {
+            let k = r.range(56, 60) as u32;
+            (P2(k), k)
+        }
+        14 | 15 => (P2(61), 61),
+        16 => (3 * P2(60), 61),
+        17 => (P2(52), 52),
+        _ => (P2(62), 62), // offsets forced negative below: the total stays < 2^63
+    };
+    let half_ulp: i128 = if k >= 53 { P2(k - 53) } else { 1 };
+    let off = |r: &mut Rng| -> i128 {
+        if half_ulp == 1 {
+            r.range(-6, 6) as i128
+        } else {
+            (r.range(-4, 4) as i128) * half_ulp + r.range(-2, 2) as i128
+        }
+    };
+    // small movable vertices
+    let ns = r.range(1, 6) as usize;
+    let na = [r.range(1, 2) as usize, r.range(1, 2) as usize];
+    let n = na[0] + na[1] + ns;
+    // layout: anchors of part 0, anchors of part 1, small vertices
+    let mut p0: Vec<usize> = Vec::with_capacity(n);
+    p0.extend(std::iter::repeat(0).take(na[0]));
+    p0.extend(std::iter::repeat(1).take(na[1]));
+    let mut ws: Vec<i128> = vec![0; na[0] + na[1]];
+    let bias = r.below(3); // 0: small vertices on both sides, 1: mostly in part 0, 2: mostly in part 1
+    for _ in 0..ns {
+        p0.push(match bias {
+            0 => r.below(2) as usize,
+            1 => (r.below(5) == 0) as usize,
+            _ => (r.below(5) != 0) as usize,
+        });
+        ws.push(r.range(1, 5) as i128);
+    }
+    let small: [i128; 2] = [0, 1].map(|q| (0..n).filter(|v| *v >= na[0] + na[1] && p0[*v] == q).map(|v| ws[v]).sum());
+    // the cap and the two part sums
+    let mi: Option<f64> = match r.below(20) {
+        0..=8 => None,
+        9..=12 => Some(0.0),
+        13 | 14 => Some((r.range(1, 4) as f64) * f64::EPSILON), // j * 2^-52
+        15 => Some(*r.pick(&[f64::EPSILON / 2.0, -f64::EPSILON, 1e-16, 3e-16, 1e-15])),
+        16 | 17 => Some(*r.pick(&[1.0, 0.5, 0.25, 0.1])), // total solved below
+        _ => Some(*r.pick(&[1.0, 0.5, 0.1, 2.0])),
+    };
+    let solved = matches!(mi, Some(m) if m >= 0.1) && r.chance(2, 3);
+    let mut sums: [i128; 2] = if solved {
+        // (1 + mi) * total / 2 ~ base: one part near the cap, the other takes the rest
+        let m = mi.unwrap();
+        let total = ((2.0 * base as f64) / (1.0 + m)) as i128;
+        let near = base + off(r);
+        let rest = (total - near + off(r)).max(0);
+        if r.chance(1, 2) {
+            [near, rest]
+        } else {
+            [rest, near]
+        }
+    } else if r.chance(1, 8) {
+        // one part at the base, the other one light
+        let light = r.range(0, 12) as i128;
+        if r.chance(1, 2) {
+            [base + off(r), light]
+        } else {
+            [light, base + off(r)]
+        }
+    } else {
+        [base + off(r), base + off(r)]
+    };
+    if k == 62 {
+        // both parts just below 2^62
+        for s in sums.iter_mut() {
+            if *s >= P2(62) {
+                *s = 2 * P2(62) - *s - 1;
+            }
+        }
+    }
+    // contract: the total fits in i64 with some room
+    while sums[0] + sums[1] > i64::MAX as i128 - 64 {
+        let q = if sums[0] >= sums[1] { 0 } else { 1 };
+        sums[q] -= P2(61);
+    }
+    // anchors take what the small vertices leave
+    for q in 0..2 {
+        let rest = (sums[q] - small[q]).max(0);
+        let first = if q == 0 { 0 } else { na[0] };
+        if na[q] == 1 {
+            ws[first] = rest;
+        } else {
+            let a = match r.below(3) {
+                0 => rest / 2 + r.range(-3, 3) as i128,
+                1 => rest.min(P2(53)),            // one anchor exactly 2^53 (if the part is that heavy)
+                _ => rest - r.range(0, 7) as i128, // a huge one and a second small one
+            }
+            .clamp(0, rest);
+            ws[first] = a;
+            ws[first + 1] = rest - a;
+        }
+    }
+    // edges: every small vertex pulls towards the other part (positive gain), sometimes held back
+    let mut adj: Adj = vec![Vec::new(); n];
+    let add = |adj: &mut Adj, u: usize, v: usize, w: i64| {
+        if u != v && !adj[u].iter().any(|(x, _)| *x == v) {
+            adj[u].push((v, w));
+            adj[v].push((u, w));
+        }
+    };
+    for v in na[0] + na[1]..n {
+        let others: Vec<usize> = (0..n).filter(|u| p0[*u] != p0[v]).collect();
+        let same: Vec<usize> = (0..n).filter(|u| *u != v && p0[*u] == p0[v]).collect();
+        for _ in 0..r.range(1, 2) {
+            let u = *r.pick(&others);
+            add(&mut adj, v, u, r.range(1, 4));
+        }
+        if r.chance(1, 3) && !same.is_empty() {
+            let u = *r.pick(&same);
+            add(&mut adj, v, u, r.range(1, 2));
+        }
+    }
+    for row in adj.iter_mut() {
+        row.sort();
+    }
+    Case {
+        fam: "huge".to_string(),
+        pfam: "partition/huge_anchored".to_string(),
+        wfam: format!("weights/huge_2^{}", k),
+        adj,
+        ws: ws.iter().map(|x| i64::try_from(*x).unwrap()).collect(),
+        p0,
+        mp: *r.pick(&[None, None, Some(1), Some(2), Some(3)]),
+        mm: *r.pick(&[None, None, None, Some(1), Some(2), Some(n)]),
+        mi,
+        mb: r.below(4) as usize,
+    }
+}
+
+/// Textbook inputs of the huge-weight family, always present whatever the random draws give:
+/// every improving move would put a part one unit above the cap, 2^53 + 1, which `to_f64` rounds
+/// back to 2^53 (a / b: cap = the heaviest part; d: cap = (1 + 1.0) * half the total, the total
+/// 2^53 + 1 itself rounding to 2^53), and (c) the half total rounding UP (2^54 + 6 -> 2^54 + 8), so
+/// that the code's own cap 2^53 + 4 lets a part grow to 2^53 + 4.
+fn gen_huge_pinned(r: &mut Rng) -> Case {
+    const P53: i64 = 1 << 53;
+    let (name, n, edges, ws, p0, mi): (&str, usize, Vec<(usize, usize, i64)>, Vec<i64>, Vec<usize>, Option<f64>) = match r.below(4) {
+        0 => ("a", 3, vec![(1, 2, 1)], vec![P53 - 3, 3, P53 - 2], vec![0, 0, 1], None),
+        1 => (
+            "b",
+            5,
+            vec![(0, 1, 1), (0, 2, 1), (0, 3, 1)],
+            vec![5, 1, 1, P53 - 6, P53 - 5],
+            vec![0, 1, 1, 1, 0],
+            None,
+        ),
+        2 => ("c", 3, vec![(1, 2, 1)], vec![P53 + 2, 1, P53 + 3], vec![0, 0, 1], Some(0.0)),
+        _ => ("d", 2, vec![(0, 1, 1)], vec![P53 - 2, 3], vec![0, 1], Some(1.0)),
+    };
+    let mut adj: Adj = vec![Vec::new(); n];
+    for (u, v, w) in edges {
+        adj[u].push((v, w));
+        adj[v].push((u, w));
+    }
+    for row in adj.iter_mut() {
+        row.sort();
+    }
+    Case {
+        fam: "huge".to_string(),
+        pfam: format!("partition/huge_pinned_{}", name),
+        wfam: "weights/huge_2^53".to_string(),
+        adj,
+        ws,
+        p0,
+        mp: None,
+        mm: None,
+        mi,
+        mb: r.below(2) as usize,
+    }
+}
+
+/// The cap of the property in EXACT arithmetic, as a fraction (num, den): the heaviest input part,
+/// or (1 + max_imbalance) * total / 2 with max_imbalance the exact value of the f64.  `None` when
+/// the numbers do not fit in i128 (diagnostic only; the verdicts come from the Coq checker, whose
+/// cap is the code's own f64 formula).
+fn exact_cap(mi: Option<f64>, loads: [i128; 2]) -> Option<(i128, i128)> {
+    match mi {
+        None => Some((loads[0].max(loads[1]), 1)),
+        Some(x) => {
+            if !x.is_finite() {
+                return None;
+            }
+            let total = loads[0] + loads[1];
+            // x = m * 2^e exactly
+            let bits = x.to_bits();
+            let sign: i128 = if bits >> 63 == 1 { -1 } else { 1 };
+            let ex = ((bits >> 52) & 0x7ff) as i32;
+            let frac = (bits & ((1u64 << 52) - 1)) as i128;
+            let (mut m, mut e) = if ex == 0 { (frac, -1074) } else { (frac | (1i128 << 52), ex - 1075) };
+            if m == 0 {
+                return Some((total, 2));
+            }
+            while m % 2 == 0 {
+                m /= 2;
+                e += 1;
+            }
+            let m = sign * m;
+            if e >= 0 {
+                if e > 100 {
+                    return None;
+                }
+                let f = 1i128.checked_shl(e as u32)?.checked_mul(m)?.checked_add(1)?;
+                Some((total.checked_mul(f)?, 2))
+            } else {
+                if -e > 120 {
+                    return None;
+                }
+                let d = 1i128 << (-e) as u32;
+                let f = d.checked_add(m)?; // (1 + x) = f / d
+                Some((total.checked_mul(f)?, d.checked_mul(2)?))
+            }
+        }
+    }
+}
+
 fn gen_case(r: &mut Rng, tier: &str) -> Case {
     let big = tier == "thorough";
     if r.chance(1, 25) {
         return gen_heavy(r, big);
+    }
+    if r.chance(1, 16) {
+        return gen_huge(r);
     }
     let (gname, mut adj) = gen_graph(r, big);
     let n = adj.len();
@@ -126,6 +374,7 @@ fn gen_case(r: &mut Rng, tier: &str) -> Case {
         _ => Some((r.below(2000) as f64) / 1000.0),
     };
     let mut stream = "";
+    let mut directed = false;
     if r.chance(1, 10) && n >= 2 {
         stream = "malformed_";
         match r.below(9) {
@@ -167,11 +416,20 @@ fn gen_case(r: &mut Rng, tier: &str) -> Case {
                 if u != v && !adj[u].iter().any(|(x, _)| *x == v) {
                     adj[u].push((v, r.range(1, 5)));
                     adj[u].sort();
+                    directed = true;
                 } else {
                     mi = Some(f64::NAN);
                 }
             }
         }
+    }
+    let mut mp = gen_limit(r);
+    let mm = gen_limit(r);
+    if directed && mp.is_none() {
+        // Outside the contract: on a non-symmetric matrix the tracked cut of a build without debug
+        // assertions can decrease for ever (the pass loop never ends at /repo HEAD, see
+        // docs/C07.md); an endless run would stop the batch, so the passes are bounded here.
+        mp = Some(r.range(4, 24) as usize);
     }
     Case {
         fam: format!("{}{}", stream, gname),
@@ -180,8 +438,8 @@ fn gen_case(r: &mut Rng, tier: &str) -> Case {
         adj,
         ws,
         p0,
-        mp: gen_limit(r),
-        mm: gen_limit(r),
+        mp,
+        mm,
         mi,
         mb: r.below(4) as usize,
     }
@@ -260,6 +518,11 @@ fn main() {
     let mut total_moves = 0usize;
     let mut total_passes = 0usize;
     let mut rewound = 0usize;
+    // diagnostic: outputs in which a part weighs more than max(its input weight, the cap in EXACT
+    // arithmetic) -- the code's cap is the f64 formula, which may round above the exact value
+    let mut exact_exceeded = 0usize;
+    let mut exact_exceeded_at: Vec<String> = Vec::new();
+    let mut huge_moved = 0usize;
     coupe::verif::trace_enable(true);
     for idx in 0..a.cases {
         let mut r = rng.fork();
@@ -308,6 +571,27 @@ fn main() {
             Guarded::Done(Ok((p, mpp, rpp))) => {
                 if *p != c.p0 {
                     changed += 1;
+                    if c.fam == "huge" {
+                        huge_moved += 1;
+                    }
+                }
+                if !c.fam.starts_with("malformed_") && p.len() == c.ws.len() && c.p0.len() == c.ws.len() {
+                    let load = |part: &[usize], q: usize| -> i128 {
+                        part.iter().zip(&c.ws).filter(|(x, _)| **x == q).map(|(_, w)| *w as i128).sum()
+                    };
+                    let l0 = [load(&c.p0, 0), load(&c.p0, 1)];
+                    if let Some((num, den)) = exact_cap(c.mi, l0) {
+                        let over = (0..2).any(|q| {
+                            let l = load(p, q);
+                            l > l0[q] && l.checked_mul(den).map_or(false, |x| x > num)
+                        });
+                        if over {
+                            exact_exceeded += 1;
+                            if exact_exceeded_at.len() < 8 {
+                                exact_exceeded_at.push(format!("\"{}:{}\"", idx, c.fam));
+                            }
+                        }
+                    }
                 }
                 rewound += rpp.iter().sum::<usize>();
                 (
@@ -430,7 +714,7 @@ fn main() {
         }
     }
     w.finish(&format!(
-        "\"hangs\":{},\"panics\":{},\"partition_changed\":{},\"passes\":{},\"moves\":{},\"rewound_moves\":{}",
-        hangs, panics, changed, total_passes, total_moves, rewound
+        "\"hangs\":{},\"panics\":{},\"partition_changed\":{},\"passes\":{},\"moves\":{},\"rewound_moves\":{},\"huge_partition_changed\":{},\"exact_cap_exceeded\":{},\"exact_cap_exceeded_at\":[{}]",
+        hangs, panics, changed, total_passes, total_moves, rewound, huge_moved, exact_exceeded, exact_exceeded_at.join(",")
     ));
 }
